@@ -84,6 +84,10 @@ def make_consistent(st, u) -> None:
         u["a"], u["t"], u["form"] = e["p"], e["r"], u["form"] % 2
     elif k == "func":
         u["a"], u["t"], u["form"] = e["p"], e["r"], (u["form"] if not e.get("rcls") else 2) if e.get("rcls") else u["form"] % 2
+        if e.get("pproto"):
+            pe = st["mods"].get(e["pproto"][0], {}).get("exports", {}).get(e["pproto"][1])
+            if pe and pe["kind"] == "proto":
+                u["pp"], u["pr"] = pe["p"], pe["r"]
     elif k == "ovl":
         u["a"], u["t"], u["form"] = "int", e["r"], u["form"] % 2
     elif k == "cls":
@@ -152,6 +156,12 @@ def add_export(st, rnd, mod, kind=None) -> None:
         cands = [(d, n) for d in st["mods"][mod]["imports"] if d in st["mods"] for n, x in st["mods"][d]["exports"].items() if x["kind"] == "cls"]
         if cands:
             e["rcls"] = list(rnd.choice(cands))
+    if e["kind"] == "func" and not e.get("rcls"):
+        # ... or take, after two parameters of the SAME type, a parameter whose type is a protocol defined in an imported
+        # module: callers that import only THIS module depend on that third module through a later item of the signature
+        pc = [(d, n) for d in st["mods"][mod]["imports"] if d in st["mods"] and st["mods"][mod]["imports"][d] in ("import", "func") for n, x in st["mods"][d]["exports"].items() if x["kind"] == "proto"]
+        if pc and random.Random(st["counter"] * 31 + 7).random() < 0.5:
+            e["pproto"] = list(pc[random.Random(st["counter"]).randrange(len(pc))])
     st["mods"][mod]["exports"][name] = e
 
 
@@ -199,6 +209,8 @@ def render_export(st, mod, name, e) -> list[str]:
         if rc and rc[0] in mm["imports"] and mm["imports"][rc[0]] != "tc" and rc[0] in st["mods"] and rc[1] in st["mods"][rc[0]]["exports"]:
             r = ref(mm, rc[0], rc[1])
             out += ["def %s(x: %s) -> %s:" % (name, e["p"], r), "    return %s()" % r]
+        elif e.get("pproto") and e["pproto"][0] in mm["imports"] and mm["imports"][e["pproto"][0]] != "tc" and e["pproto"][0] in st["mods"] and e["pproto"][1] in st["mods"][e["pproto"][0]]["exports"] and not st["mods"][e["pproto"][0]]["exports"][e["pproto"][1]].get("hidden"):
+            out += ["def %s(x: %s, x2: %s, q: %s) -> %s:" % (name, e["p"], e["p"], ref(mm, e["pproto"][0], e["pproto"][1]), e["r"]), "    return %s" % lit(e["r"], e["ok"])]
         else:
             out += ["def %s(x: %s) -> %s:" % (name, e["p"], e["r"]), "    return %s" % lit(e["r"], e["ok"])]
     elif k == "cfn":
@@ -242,6 +254,13 @@ def render_export(st, mod, name, e) -> list[str]:
     return out
 
 
+def func_has_proto_param(st, dep, e) -> bool:
+    """Does the function export `e` of module `dep` currently render its third, protocol-typed parameter?"""
+    mm = st["mods"].get(dep)
+    pp = e.get("pproto")
+    return bool(mm and pp and pp[0] in mm["imports"] and mm["imports"][pp[0]] != "tc" and pp[0] in st["mods"] and pp[1] in st["mods"][pp[0]]["exports"] and not st["mods"][pp[0]]["exports"][pp[1]].get("hidden") and not e.get("rcls"))
+
+
 def render_use(st, mod, u) -> list[str]:
     m = st["mods"][mod]
     dep, name = u["dep"], u["name"]
@@ -260,6 +279,9 @@ def render_use(st, mod, u) -> list[str]:
         return [l % {"i": i, "r": r} + (tail if "%(r)s" in l else "") for l in SIG_WRAPS[u["sig"] % len(SIG_WRAPS)]]
     if kind == "cfn":
         out += ["u%d: %s = %s(%s)%s" % (i, u["t"], r, lit(u["a"]), tail)]
+    elif kind == "func" and e and e.get("pproto") and func_has_proto_param(st, dep, e):
+        pp, pr = u.get("pp", u["a"]), u.get("pr", u["t"])
+        out += ["class IP%d:" % i, "    def m(self, y: %s) -> %s:" % (pp, pr), "        return %s" % lit(pr), "up%d: %s = %s(%s, %s, IP%d())%s" % (i, u["t"], r, lit(u["a"]), lit(u["a"]), i, tail)]
     elif kind in ("func", "ovl"):
         if u["form"] == 0:
             out += ["u%d: %s = %s(%s)%s" % (i, u["t"], r, lit(u["a"]), tail)]
@@ -514,6 +536,25 @@ def apply_edit(st, op) -> bool:
             add_export(st, rnd, mod, "cls")
             for x in m["exports"].values():
                 x.setdefault("ok", True)
+    elif kind == "ensure_kind":
+        if not any(x["kind"] == op["kind"] and not x.get("hidden") for x in m["exports"].values()):
+            add_export(st, rnd, mod, op["kind"])
+    elif kind == "add_pproto_func" and op.get("dep") in m["imports"] and op.get("dep") in st["mods"] and op.get("name") in st["mods"][op["dep"]]["exports"]:
+        before_names = set(m["exports"])
+        add_export(st, rnd, mod, "func")
+        for n_ in set(m["exports"]) - before_names:
+            e_ = m["exports"][n_]
+            e_.pop("rcls", None)
+            e_["pproto"] = [op["dep"], op["name"]]
+            e_["ok"] = True
+    elif kind == "add_use_of" and op.get("dep") in m["imports"] and op.get("dep") in st["mods"] and op.get("name") in st["mods"][op["dep"]]["exports"]:
+        u = new_use(rnd, fresh(st), op["dep"], op["name"])
+        u.pop("sig", None)
+        make_consistent(st, u)
+        m["uses"].append(u)
+    elif kind == "change_sig" and op.get("name") in m["exports"]:
+        e_ = m["exports"][op["name"]]
+        e_["r"] = TYPES[(TYPES.index(e_["r"]) + 1 + op["seed"] % 3) % len(TYPES)]
     elif kind == "clear_blockers":
         for om in st["mods"].values():
             om["broken"] = False
